@@ -18,7 +18,7 @@ var c09Assumptions = []string{
 }
 
 const c09Text = "bounded model checking: goroutines of the real code (go/ssa) are turned into control-flow automata by symbolic execution between visible operations; the product is unrolled K steps into one SMT formula whose schedule, inputs, stage functions (uninterpreted) and failure pattern are solver variables; K is raised until no run of K non-stutter steps exists (completeness threshold), so Final conditions are statements about all complete runs of the configuration. " +
-	"C09: fork.Map (Pure / Try / Lift), fork.FMap (LiftF without failures / TryF / LiftF, arrow emitting 1..2 values per element), fork.Filter and fork.Partition (Pure / failing predicate), fork.ForEach and fork.Void with par workers, a producer goroutine (send n elements, close) and one consumer goroutine per returned channel. " +
+	"C09: fork.Map (Pure / Try / Lift), fork.FMap (LiftF without failures / TryF / LiftF, arrow emitting 1..2 values per element), fork.Filter and fork.Partition (Pure / failing predicate), fork.ForEach (Pure, and Try / Lift of a function failing on an uninterpreted set: the outcome is ignored as in pipe.ForEach) and fork.Void with par workers, a producer goroutine (send n elements, close) and one consumer goroutine per returned channel. " +
 	"Scenarios per stage: (a) no cancellation, consumers receive until close: at quiescence every output is closed, every worker and the closer goroutine have returned, every element has been applied exactly once and the received values/errors are exactly the image multiset (Try: one error per failing element; Lift: everything computed before the abort is delivered, at most one error per worker); (b) a canceller goroutine that may fire at any step, consumers as in (a): whenever the context is cancelled the stage winds up (outputs closed, library goroutines gone) and nothing is duplicated or invented; (c) cancel with consumers that never receive: the same wind-up with nobody draining the outputs; (thorough) consumers that stop after one value. At every step: no panic (send on / close of a closed channel, negative WaitGroup), every application is of a not-yet-applied input element, every received value is the image of a not-yet-received element. " +
 	"Bounds: quick = workers 1..2, n 0..2, producer capacity 0 (capacity 1 for the uncancelled scenario with n>=1), with the configurations that take minutes (workers=2 with n=2 and eager consumers for Try/Lift/Partition/FMap; FMap under cancellation with workers=2) left to the thorough tier; thorough = all of workers 1..2 x n 0..2 x capacity 0..1 x scenarios, consumers stopping after one value, workers=3 with n<=1, and workers=1 with n=3."
 
@@ -33,7 +33,7 @@ var c09Stages = []c09Stage{
 	{"VForkFMap", "mode", []int{0, 1, 2}},
 	{"VForkFilter", "mode", []int{0, 1}},
 	{"VForkPartition", "mode", []int{0, 1}},
-	{"VForkForEach", "void", []int{0, 1}},
+	{"VForkForEach", "void", []int{0, 1, 2, 3}},
 }
 
 // c09Quick decides whether a configuration belongs to the quick tier (measured
@@ -41,6 +41,10 @@ var c09Stages = []c09Stage{
 func c09Quick(h string, mode, par, n, capc, cancel, take int) bool {
 	if take > 0 || par > 2 || n > 2 {
 		return false
+	}
+	if h == "VForkForEach" && mode >= 2 {
+		// ForEach with a failing function: the scenarios where it matters
+		return n >= 1 && take < 0 && capc == 0
 	}
 	if capc == 1 {
 		// capacity 1 only for the plain scenario of the cheap configurations
